@@ -1,9 +1,13 @@
 #!/usr/bin/env python3
 """Regenerates MANIFEST.json from checks.json + manifest_meta.json (kept valid at all times)."""
-import json, os
+import json, os, glob
 V = os.path.dirname(os.path.abspath(__file__))
 cfg = json.load(open(os.path.join(V, "checks.json")))
 meta = json.load(open(os.path.join(V, "manifest_meta.json")))
+for fn in sorted(glob.glob(os.path.join(V, "checks.d", "*.json"))):
+    cfg.update(json.load(open(fn)))
+for fn in sorted(glob.glob(os.path.join(V, "meta.d", "*.json"))):
+    meta["checks"].update(json.load(open(fn)))
 props = [json.loads(l) for l in open(os.path.join(V, "properties.jsonl"))]
 checks = []
 na = []
